@@ -183,21 +183,21 @@ Qed.
 
 Definition pstep (O : oracle) (c : cfg) (syms : list sym) (acc : mem * stats * bool) (a : N) :=
   let '(st, found) := acc in
-  match find_sym syms a with
+  match resolve_target syms a with
   | None => (visit O c st (fake_sym a), true)
   | Some s => if skip_sym s then acc else (visit O c st s, true)
   end.
 Lemma patchable_loop_mem O c syms targets : forall m k f,
   fst (fst (fold_left (pstep O c syms) targets (m, k, f)))
   = fold_left (mstep O c)
-      (flat_map (fun a => match find_sym syms a with
+      (flat_map (fun a => match resolve_target syms a with
                           | Some s => if skip_sym s then [] else [s]
                           | None => [fake_sym a]
                           end) targets) m.
 Proof.
   induction targets as [|a targets IH]; intros m k f; [reflexivity|].
   cbn [fold_left flat_map]. rewrite fold_left_app. unfold pstep at 2.
-  destruct (find_sym syms a) as [s|].
+  destruct (resolve_target syms a) as [s|].
   - destruct (skip_sym s); [apply IH|].
     destruct (visit O c (m, k) s) as [m1 k1] eqn:V. rewrite IH. cbn [fold_left]. f_equal.
     unfold mstep. rewrite (visit_fst_indep O c m stats0 k). now rewrite V.
@@ -215,7 +215,7 @@ Proof.
     destruct (fold_left _ syms (m, k)) as [m1 k1] eqn:F. cbn [fst].
     pose proof (normal_loop_mem O c syms m k) as H. rewrite F in H. exact H. }
   destruct (c_ty c); try exact N.
-  unfold patch_patchable_func_matched. fold (pstep O c syms).
+  unfold patch_patchable_func_matched, patchable_loop. fold (pstep O c syms).
   destruct (fold_left (pstep O c syms) targets (m, k, false)) as [[m1 k1] f1] eqn:F. cbn [fst].
   pose proof (patchable_loop_mem O c syms targets m k false) as H. rewrite F in H. exact H.
 Qed.
@@ -432,7 +432,7 @@ Definition spill_A : sym := {| s_addr := 0; s_size := 6; s_type := ST_GLOBAL_FUN
 Definition spill_B : sym := {| s_addr := 6; s_size := 3; s_type := ST_GLOBAL_FUNC; s_name := [98] |}.
 Definition spill_mem : mem := mem_of 0 (endbr64 ++ [144; 144] ++ [144; 144; 144] ++ [195; 204; 204; 204; 204; 204; 204; 204]).
 Definition spill_cfg : cfg :=
-  {| c_pats := [{| pi_patt := {| pt_type := PGlob; pt_str := [42] |}; pi_mod := []; pi_pos := true |}];
+  {| c_pats := [{| pi_patt := {| pt_type := PGlob; pt_str := [42] |}; pi_mod := []; pi_pos := true; pi_exact := false |}];
      c_lib := [109]; c_so := None; c_ty := DFentryNop; c_tramp := 4080; c_min := 0 |}.
 Lemma spill_refuted :
   s_addr spill_A + s_size spill_A <= s_addr spill_B        (* the two symbols do not overlap *)
